@@ -122,13 +122,25 @@ func main() {
 		fmt.Fprintln(os.Stderr, "usage: instrument <dir>")
 		os.Exit(2)
 	}
-	dir := os.Args[1]
+	inserted, notes := 0, 0
+	// the root package and the job store: the two places whose locks goroutines can be parked under (hook points of the
+	// simulator sit inside SaveToStore and inside JsonDataStore.Save)
+	for _, dir := range []string{os.Args[1], filepath.Join(os.Args[1], "store")} {
+		i, n := processDir(dir)
+		inserted, notes = inserted+i, notes+n
+	}
+	fmt.Printf("instrument: %d hook points inserted, %d lock/unlock notifications\n", inserted, notes)
+}
+
+func processDir(dir string) (inserted, notes int) {
 	ents, err := os.ReadDir(dir)
 	if err != nil {
+		if os.IsNotExist(err) {
+			return 0, 0
+		}
 		fmt.Fprintln(os.Stderr, err)
 		os.Exit(2)
 	}
-	inserted, notes := 0, 0
 	for _, e := range ents {
 		name := e.Name()
 		if e.IsDir() || !strings.HasSuffix(name, ".go") || strings.HasSuffix(name, "_test.go") || strings.HasSuffix(name, "_verif.go") {
@@ -228,5 +240,5 @@ func main() {
 			os.Exit(2)
 		}
 	}
-	fmt.Printf("instrument: %d hook points inserted, %d lock/unlock notifications\n", inserted, notes)
+	return inserted, notes
 }
